@@ -568,6 +568,8 @@ var jgenRunes = []rune{
 	'a', 'b', 'z', 'A', '0', '1', ' ', '_', '.', ':', '@', '!', '$', '-',
 	'"', '\\', '/', '\b', '\t', '\n', '\f', '\r', 0x00, 0x01, 0x1f, 0x7f,
 	0xe9, 0x2028, 0x2029, 0xfffd, 0xffff, 0xd7ff, 0xe000, 0x1f600, 0x10000, 0x10ffff,
+	// UTF-8 width boundaries and their neighbours
+	0x7e, 0x80, 0x81, 0xa0, 0xff, 0x7ff, 0x800, 0xfffe,
 }
 
 func jgenString(t *rapid.T, label string) string {
